@@ -116,6 +116,26 @@ impl BuildRecord {
             });
         }
 
+        // BPSV has no escaping: a '|' or a line break inside a value shifts or splits the row
+        self.validate_bpsv_text("product", &self.product)?;
+        self.validate_bpsv_text("version", &self.version)?;
+        if let Some(ref path) = self.cdn_path {
+            self.validate_bpsv_text("cdn_path", path)?;
+        }
+
+        Ok(())
+    }
+
+    /// Validate that a string can be emitted as a BPSV field (no column or row separator).
+    fn validate_bpsv_text(&self, field: &str, value: &str) -> Result<(), DatabaseError> {
+        if value.contains(['|', '\n', '\r']) {
+            return Err(DatabaseError::InvalidField {
+                field: field.to_string(),
+                build_id: self.id,
+                reason: "contains a BPSV separator ('|' or a line break)".to_string(),
+            });
+        }
+
         Ok(())
     }
 
